@@ -682,12 +682,42 @@ func (f Function) lambdaPrint(ps *ast.PrintState, out *strings.Builder) string {
 	} else {
 		out.WriteString("=>")
 	}
-	needBraces := len(f.Body.Statements) != 1 ||
-		f.Body.Statements[0].Value().Type() == token.LBRACE ||
-		f.Body.Statements[0].Value().Type() == token.LAMBDA
+	stmts := f.Body.Statements
+	if ps.Compact { // comments aren't printed in compact mode: they don't count.
+		stmts = make([]ast.Node, 0, len(f.Body.Statements))
+		for _, st := range f.Body.Statements {
+			if _, isComment := st.(*ast.Comment); !isComment {
+				stmts = append(stmts, st)
+			}
+		}
+	}
+	needBraces := len(stmts) != 1 ||
+		stmts[0].Value().Type() == token.LBRACE ||
+		stmts[0].Value().Type() == token.LAMBDA
+	if !needBraces {
+		// x=>{"a":x}.a would read back as the function x=>{...} followed by .a: a body starting with { needs braces.
+		leftmost := stmts[0]
+		for {
+			switch n := leftmost.(type) {
+			case *ast.InfixExpression:
+				leftmost = n.Left
+				continue
+			case *ast.IndexExpression:
+				leftmost = n.Left
+				continue
+			case *ast.CallExpression:
+				leftmost = n.Function
+				continue
+			}
+			break
+		}
+		if _, isMap := leftmost.(*ast.MapLiteral); isMap {
+			needBraces = true
+		}
+	}
 	if !needBraces {
 		// x=>a=1, x=>a||b, x=>return a don't read back as x=>{...}: what binds looser than => needs the braces.
-		switch st := f.Body.Statements[0].(type) {
+		switch st := stmts[0].(type) {
 		case *ast.ReturnStatement:
 			needBraces = true
 		case *ast.InfixExpression:
